@@ -29,7 +29,9 @@ LAYOUTS = ["F-order", "strided-view", "transposed-view", "integer", "list"]
 DERIVED = ["copy()", "T-of-transpose", "product", "view()"]
 ROUTES = ["%s/%s" % (e, mname(m, kw)) for e in ENTRIES for m, kw in METHODS] + ["DCM.to_q/default", "Quaternion.from_DCM/default", "DCM.to_quaternion/default", "Quaternion(dcm=)/default",
           "QuaternionArray(DCM=)/default", "QuaternionArray.from_DCM/default"] + \
-         ["DCM(array in any layout)", "DCM object from DCM operations"]
+         ["DCM(array in any layout)", "DCM object from DCM operations"] + \
+         ["DCM.to_quaternion/sarabandi[threshold]", "DCM.to_q/sarabandi[threshold]", "Quaternion(dcm=)/sarabandi[threshold]", "QuaternionArray(DCM=)/sarabandi[threshold]",
+          "free/sarabandi[eta]"] + ["DCM.to_q/" + mname(m, kw) for m, kw in METHODS]
 PIVOTS = ["pivot_tr", "pivot_r11", "pivot_r22", "pivot_r33"]
 REGIONS = dict({r: 30 for r in gens.ROT_REGIONS if r != "generic"}, **{p: 30 for p in PIVOTS},
                **{"trace_neg": 30, "isclose_band": 30})
@@ -200,6 +202,25 @@ def check(case, ctx):
     out = call(lambda: ahrs.Quaternion().from_DCM(R.copy()))
     if ctx.returned(out, route="Quaternion.from_DCM/default"):
         judge(ctx, "Quaternion.from_DCM/default", "shepperd", out.value, R, theta)
+    # Sarabandi's documented threshold option (its branches switch between two formulas for the same component: any value must give the same rotation)
+    if theta <= np.pi - 1e-6:
+        # (non-negative values only: with a negative threshold the first formula sqrt(1 + d) is used for components that are exactly zero, where
+        #  rounding makes 1 + d = -2e-16: NaN on coordinate-plane axes - a limitation of that non-default setting, recorded in DESIGN, not judged)
+        th_ = float([0.1, 0.3, 0.5, 0.9, 1.5, 2.5, 3.0][int(abs(case.p["angle"]) * 1e6) % 7])
+        for r, fn, shape in (("DCM.to_quaternion/sarabandi[threshold]", lambda: DCM(R.copy()).to_quaternion("sarabandi", threshold=th_), (4,)),
+                             ("DCM.to_q/sarabandi[threshold]", lambda: DCM(R.copy()).to_q("sarabandi", threshold=th_), (4,)),
+                             ("Quaternion(dcm=)/sarabandi[threshold]", lambda: np.asarray(ahrs.Quaternion(dcm=R.copy(), method="sarabandi", threshold=th_)), (4,)),
+                             ("QuaternionArray(DCM=)/sarabandi[threshold]", lambda: np.asarray(ahrs.QuaternionArray(DCM=R3.copy(), method="sarabandi", threshold=th_)), (len(R3), 4)),
+                             ("free/sarabandi[eta]", lambda: o.sarabandi(R.copy(), eta=th_), (4,))):
+            out = call(fn)
+            if ctx.returned(out, route=r):
+                judge(ctx, r, "sarabandi", out.value, R, theta, shape=shape)
+    # the other methods through the DCM.to_q alias (same signature as to_quaternion)
+    for m, kw in METHODS:
+        if m in ROBUST or theta <= np.pi - 1e-6:
+            out = call(lambda: DCM(R.copy()).to_q(m, **kw))
+            if ctx.returned(out, route="DCM.to_q/" + mname(m, kw)):
+                judge(ctx, "DCM.to_q/" + mname(m, kw), m, out.value, R, theta)
     # every entry point called without naming a method: the default must be of the robust class (all of SO(3), half-turns included)
     for r, fn, shape in (("DCM.to_quaternion/default", lambda: DCM(R.copy()).to_quaternion(), (4,)),
                          ("Quaternion(dcm=)/default", lambda: np.asarray(ahrs.Quaternion(dcm=R.copy())), (4,)),
